@@ -35,23 +35,28 @@ type batchParams struct {
 	// environment event positioned after the evAfter-th user operation reached a server
 	event   string // "", cancel, droptable, meta-silent+cancel, close
 	evAfter int
+	evStep  int // > 0: the event interrupts at this scheduling step instead (-1: never, probe run)
 	ownCtx  int // index of a call that has its own context, cancelled by the event "cancel-call" (-1: none)
 }
 
 func (p batchParams) String() string {
+	if p.evStep != 0 {
+		return fmt.Sprintf("%s|keys=%v|kinds=%v|scripts=%v|event=%s at step %d|ownctx=%d", p.layout, p.keys, p.kinds, p.scripts, p.event, p.evStep, p.ownCtx)
+	}
 	return fmt.Sprintf("%s|keys=%v|kinds=%v|scripts=%v|event=%s@%d|ownctx=%d", p.layout, p.keys, p.kinds, p.scripts, p.event, p.evAfter, p.ownCtx)
 }
 
 type batchObs struct {
-	res    []hrpc.RPCResult
-	ok     bool
-	calls  []hrpc.Call
-	w      *world
-	done   bool
-	evDone bool
-	returnedAt time.Duration
-	eventAt    time.Duration
-	userOps    int
+	res                []hrpc.RPCResult
+	ok                 bool
+	calls              []hrpc.Call
+	w                  *world
+	done               bool
+	evDone             bool
+	returnedAt         time.Duration
+	eventAt            time.Duration
+	userOps            int
+	startStep, endStep int
 }
 
 func userAttempts(cl *sim.Cluster) int {
@@ -100,7 +105,11 @@ func batchBody(p batchParams, out *batchObs) func() {
 			vrt.GoNamed("h:event", func() {
 				late := false
 				tm := vrt.AfterFunc(time.Hour, func() { late = true })
-				vrt.Await("h:event-trigger", func() bool { return late || out.done || userAttempts(cl) >= p.evAfter })
+				if p.evStep != 0 {
+					vrt.AwaitFirst("h:event-at-step", func() bool { return late || out.done || (p.evStep > 0 && vrt.Steps() >= p.evStep) })
+				} else {
+					vrt.Await("h:event-trigger", func() bool { return late || out.done || userAttempts(cl) >= p.evAfter })
+				}
 				tm.Stop()
 				out.eventAt = w.now()
 				switch p.event {
@@ -122,7 +131,9 @@ func batchBody(p batchParams, out *batchObs) func() {
 				out.evDone = true
 			})
 		}
+		out.startStep = vrt.Steps()
 		out.res, out.ok = w.client.SendBatch(ctx, out.calls)
+		out.endStep = vrt.Steps()
 		out.done = true
 		out.returnedAt = w.now()
 		out.userOps = userAttempts(cl)
@@ -319,14 +330,59 @@ func c07Units(thorough bool) []*explore.Unit {
 		units = append(units, &explore.Unit{Name: p.String(), Bound: b, Opt: vrt.Options{MaxSteps: 60000},
 			Body: batchBody(p, out), Check: c07Check(p, out), Sig: batchSig(out)})
 	}
+	return append(units, batchStepUnits(thorough, c07Check)...)
+}
+
+// batchStepUnits: the batch context is cancelled, or the client closed, at every scheduling
+// step of a thread running client code between the start and the return of SendBatch
+// (vrt.AwaitFirst: the position of the event is a parameter, not a deviation), for the
+// two-call batches whose outcome scripts have at most two letters in total.
+func batchStepUnits(thorough bool, check func(batchParams, *batchObs) func(*vrt.Result) *explore.Finding) []*explore.Unit {
+	var units []*explore.Unit
+	seq2 := seqsUpTo(2)
+	for _, layout := range []string{"spread", "coloc"} {
+		for _, s0 := range seq2 {
+			for _, s1 := range seq2 {
+				n := len(s0) + len(s1)
+				if n > 2 && !thorough {
+					continue
+				}
+				for _, ev := range []string{"cancel", "close"} {
+					base := batchParams{layout: layout, keys: []string{"a", "x"}, kinds: []string{"get", "inc"}, scripts: []string{s0, s1}, event: ev, evStep: -1, ownCtx: -1}
+					probe := &batchObs{}
+					vrt.Tracing = true
+					res, _ := explore.RunOnce(&explore.Unit{Opt: vrt.Options{MaxSteps: 60000}, Body: batchBody(base, probe)}, nil)
+					vrt.Tracing = false
+					for i, line := range res.Trace {
+						k := res.TraceSteps[i]
+						if k <= probe.startStep || harnessThread(strings.SplitN(line, " ", 2)[0]) {
+							continue
+						}
+						if k > probe.endStep {
+							break
+						}
+						p := base
+						p.evStep = k
+						out := &batchObs{}
+						b := 0
+						if thorough && n <= 2 {
+							b = 1
+						}
+						units = append(units, &explore.Unit{Name: p.String(), Bound: b, Opt: vrt.Options{MaxSteps: 60000},
+							Body: batchBody(p, out), Check: check(p, out), Sig: batchSig(out)})
+					}
+				}
+			}
+		}
+	}
 	return units
 }
 
 func init() {
 	register(&Prop{
 		ID: "C07", Level: "model_checking",
-		Technique: "stateless model checking of SendBatch on the real client over a simulated cluster: every per-call outcome script x re-location / cancellation event x event position x schedules up to a deviation bound",
-		Rule: "units = layout {two servers, one shared connection} x batch {1, 2 (two regions), 3 calls (two in one region)} x per-call outcome sequence over {fatal, retry-later, not-serving, connection-dead}* then success (all sequences of length <=2 for two calls, <=1-2 for three, <=3 for one) x event {none, cancel, table dropped (re-location fails), meta silent then cancel (re-location blocks), client closed} fired after the k-th user operation reached a server; schedules with <=1 (thorough 2) deviations where an event thread exists. Oracle: res[i] describes call i only - a call some server executed has its own payload and nil error, no result mixes a response with an error or carries another call's scripted error, every result is non-empty, allOK iff all errors are nil. Non-trivial = non-empty scripts or events.",
+		Technique:   "stateless model checking of SendBatch on the real client over a simulated cluster: every per-call outcome script x re-location / cancellation event x event position x schedules up to a deviation bound",
+		Rule:        "units = layout {two servers, one shared connection} x batch {1, 2 (two regions), 3 calls (two in one region)} x per-call outcome sequence over {fatal, retry-later, not-serving, connection-dead}* then success (all sequences of length <=2 for two calls, <=1-2 for three, <=3 for one) x event {none, cancel, table dropped (re-location fails), meta silent then cancel (re-location blocks), client closed} fired after the k-th user operation reached a server; schedules with <=1 (thorough 2) deviations where an event thread exists. Oracle: res[i] describes call i only - a call some server executed has its own payload and nil error, no result mixes a response with an error or carries another call's scripted error, every result is non-empty, allOK iff all errors are nil. Non-trivial = non-empty scripts or events.",
 		Assumptions: []string{"tier L: simulated region clients deliver results per call as the real multi does"},
 		Quick:       150 * time.Second, Thorough: 25 * time.Minute,
 		Units: c07Units,
